@@ -309,7 +309,7 @@ def t_reserve_totals(world):
             if ob.witness(eng, r, [okc]) is False: continue
             Ev = [e for e in flat_events(r['events']) if e[0] == 'call']
             ts = [e for e in Ev if re.search(r'::calculate_total_supply_i80f48$', e[1])]; ss = [e for e in Ev if re.search(r'(^|::)scale_supplies$', e[1])]
-            if len(ts) != 1 or len(ss) != 1: ob.structural(f'{len(ts)} total-supply / {len(ss)} scale_supplies calls on an accepting path', 'wiring'); continue
+            if len(ts) != 1 or len(ss) != 1: ob.shape(min(len(ts), len(ss)), 1, f'{len(ts)} total-supply / {len(ss)} scale_supplies calls on an accepting path', 'wiring'); continue
             ob.prove(eng, r, [okc], z3.And(ss[0][2][0].e == ts[0][3].e, ss[0][2][1].e == fsym('rsv*', 'MinimalReserve', 'mint_total_supply'), ss[0][2][2].e == fsym('rsv*', 'MinimalReserve', 'mint_decimals') % 256,
                                            zint(ss[0][3].disc) == 1), 'scale_supplies(total supply, collateral mint supply, mint decimals as u8) and None propagated', role='scale-args')
             cv = [e for e in Ev if re.search(r'_from_scaled$', e[1])]
@@ -339,7 +339,7 @@ def t_solend_total(world):
     for r, okc in ok_paths(res):
         if ob.witness(eng, r, [okc]) is False: continue
         dc = [e for e in flat_events(r['events']) if e[0] == 'call' and re.search(r'decimal_to_i80f48$', e[1])]
-        if len(dc) != 2: ob.structural(f'{len(dc)} decoder calls', 'total-liquidity-terms'); continue
+        if len(dc) != 2: ob.shape(len(dc), 2, f'{len(dc)} decoder calls', 'total-liquidity-terms'); continue
         src = [getattr(eng.deref_val(e[2][0]), 'name', '?') for e in dc]
         ob.queries += 1
         want = [f'rsv*.{R.index("liquidity_borrowed_amount_wads")}', f'rsv*.{R.index("liquidity_accumulated_protocol_fees_wads")}']
